@@ -20,7 +20,9 @@ PROP = 'C14'
 
 # ------------------------------------------------------------------ (a) templates
 ARITH = [('div0', '1/{z}', '/'), ('mod0', '1%{z}', '%'), ('shl-neg', '1<<({z}-1)', '<<'), ('shr-neg', '1>>({z}-1)', '>>'),
-         ('pow-neg', '2**({z}-1)', '**')]
+         ('pow-neg', '2**({z}-1)', '**'),
+         # the same faults with an operand of 20 000 bits (more decimal digits than python converts to a string by default: finding F25)
+         ('div0-big', '(1<<20000)/{z}', '/'), ('mod0-big', '(1<<20000)%{z}', '%'), ('shl-neg-big', '1<<({z}-(1<<20000))', '<<')]
 
 
 def templates():
@@ -45,6 +47,8 @@ def templates():
         T.append((f'{name}@segment-label', 'L:\n;\nsegment ' + e.format(z='(L-L)') + '\n;\n', True, None))
         T.append((f'{name}@dollar', ';' + e.format(z='($-$)') + '\n', True, None))
     T += [
+        ('wflip-value-20000-bits', 'x:\nwflip x, 1<<20000\n', True, None),
+        ('word-20000-bits', 'x:\n;x+(1<<20000)\n', True, None),
         ('lex-bad-char', ';\n`\n', True, None),
         ('lex-bad-escape', ';"\\q"\n', True, None),
         ('lex-unterminated-string', ';"abc\n', True, None),
